@@ -67,6 +67,8 @@ func main() {
 		for _, k := range ks {
 			fmt.Printf("// ===== %s\n%s\n", k, w.synthSrc[k])
 		}
+	case "coverage":
+		coverageCmd(w)
 	case "verify":
 		bad := 0
 		for _, c := range w.all {
